@@ -93,6 +93,16 @@ func runLinkedMapOrder[K comparable](c *core.Ctx, d *Dom[K]) {
 		if i != len(order) {
 			c.Fail("order", "iterator-length", "%s iterator yields %d of %d keys", name, i, len(order))
 		}
+		bi := len(order) - 1
+		bit := m.Iterator()
+		for bit.End(); bit.Prev(); bi-- {
+			if bi < 0 || !identical(bit.Key(), order[bi]) {
+				c.Fail("order", "iterator-backward", "%s iterator, walking back from the end, yields key %v where insertion order has position %d of %s", name, bit.Key(), bi, short(order))
+			}
+		}
+		if bi != -1 {
+			c.Fail("order", "iterator-backward-length", "%s iterator, walking back from the end, stops %d keys early", name, bi+1)
+		}
 		i = 0
 		m.Each(func(k K, v int) {
 			if i >= len(order) || !identical(k, order[i]) || (k == k && v != cur[order[i]]) {
@@ -237,6 +247,16 @@ func runLinkedSetOrder[T comparable](c *core.Ctx, d *Dom[T]) {
 		}
 		if i != len(order) {
 			c.Fail("order", "iterator-length", "%s iterator yields %d of %d members", name, i, len(order))
+		}
+		// ... and backwards from the end the same members in reverse, no more
+		i = len(order) - 1
+		for it.End(); it.Prev(); i-- {
+			if i < 0 || !identical(it.Value(), order[i]) || it.Index() != i {
+				c.Fail("order", "iterator-backward", "%s iterator, walking back from the end, yields (%d,%v) where insertion order has position %d of %s", name, it.Index(), it.Value(), i, short(order))
+			}
+		}
+		if i != -1 {
+			c.Fail("order", "iterator-backward-length", "%s iterator, walking back from the end, stops %d members early", name, i+1)
 		}
 		i = 0
 		s.Each(func(idx int, v T) {
